@@ -532,6 +532,11 @@ func (e *Engine) havocLoop(st *State, fr *frame, li *loopInfo) {
 				if r, ok := n.Iter.(*ssa.Range); ok {
 					if mt, isMap := r.X.Type().Underlying().(*types.Map); isMap {
 						st.iters[r] = e.ctx.Fresh("seen", ArrSort(e.keySort(mt.Key()), SBool))
+						if _, ok := st.ghost["itcnt:"+r.Name()]; ok {
+							c := e.ctx.Fresh("itcnt", SInt)
+							st.assume(Le(IntLit(0), c))
+							st.ghost["itcnt:"+r.Name()] = c
+						}
 					} else {
 						c := e.ctx.Fresh("strcnt", SInt)
 						st.assume(Le(IntLit(0), c))
@@ -1009,6 +1014,20 @@ func (e *Engine) seenOfLoop(env *SpecEnv, n int) (Term, bool) {
 		if li.ordinal == n && li.rangeI != nil {
 			s, ok := env.st.iters[li.rangeI]
 			return s, ok
+		}
+	}
+	return Term{}, false
+}
+
+func (e *Engine) iterCountOfLoop(env *SpecEnv, n int) (Term, bool) {
+	if e.cur == nil {
+		return Term{}, false
+	}
+	for _, li := range e.cur.loops {
+		if li.ordinal == n && li.rangeI != nil {
+			if v, ok := env.st.ghost["itcnt:"+li.rangeI.Name()]; ok {
+				return v.(Term), true
+			}
 		}
 	}
 	return Term{}, false
